@@ -227,11 +227,14 @@ type Batch struct {
 const harnessTmpl = `package {{.Name}}
 
 import (
+	"bytes"
 	"fmt"
 	"os"
 
 	"vb/mon"
 )
+
+var _ = bytes.NewReader
 
 func init() { mon.Register("{{.Name}}", verifRun) }
 
@@ -296,9 +299,29 @@ func verifRun(c *mon.Case) *mon.Result {
 				res.Panic = mon.CanonPanic(e)
 			}
 		}()
-		val, err = Parse(c.File, in, opts...)
+		if c.Reader {
+			val, err = ParseReader(c.File, bytes.NewReader(in), opts...)
+		} else {
+			val, err = Parse(c.File, in, opts...)
+		}
 	}()
 	mon.SetLive(nil)
+	if c.Reader && res.Panic == "" {
+		// a result must stay what it is when the entry point is used again
+		v1 := mon.Canon(val)
+		other := bytes.Repeat([]byte{'Z'}, len(in)+1)
+		func() {
+			defer func() { recover() }()
+			o2 := []Option{GlobalStore("mon", &mon.Trace{Max: 1}), MaxExpressions(20000)}
+			if c.Entry != "" {
+				o2 = append(o2, Entrypoint(c.Entry))
+			}
+			ParseReader("", bytes.NewReader(other), o2...)
+		}()
+		if v2 := mon.Canon(val); v2 != v1 {
+			res.Unstable = fmt.Sprintf("%.200s -> %.200s", v1, v2)
+		}
+	}
 {{if not .Optimized}}
 	if c.Stats {
 		for _, m := range st.ChoiceAltCnt {
